@@ -385,3 +385,9 @@ func replayCase(prop string, c *Case) []*Violation {
 	}
 	return f(prop, c)
 }
+
+// remarshal converts a decoded-JSON value (or an in-memory struct) into dst.
+func remarshal(src any, dst any) {
+	b, _ := json.Marshal(src)
+	json.Unmarshal(b, dst)
+}
